@@ -244,7 +244,11 @@ func predConcurrent(c Case) (r Result) {
 					o.Panic = safely(func() { o.Val, o.Err = jp.Search(expr, doc) })
 				case mode == "mixed" && g%2 == 1:
 					o.Panic = safely(func() {
-						other, err := jp.Compile(c06Templates[(g+i)%len(c06Templates)])
+						otherExpr := c06Templates[(g+i)%len(c06Templates)]
+						if i%2 == 0 {
+							otherExpr = c12LiteralExprs[(g+i)%len(c12LiteralExprs)]
+						}
+						other, err := jp.Compile(otherExpr)
 						if err == nil {
 							_, _ = other.Search(doc)
 						}
@@ -342,7 +346,7 @@ var c12Modes = []string{"same-doc", "own-docs", "oneshot", "mixed", "reader"}
 var c12LiteralExprs = []string{
 	"`[3,1,2]` | [@[0], sort_by(@, &@)[0]]", "sort_by(`[{\"a\":2},{\"a\":1}]`, &a)[0].a", "reverse(`[1,2,3]`)", "merge(`{\"a\":1}`, @)", "`[[2,1],[0]]`[] | sort(@)",
 	"sort_by(people, &age)[*].name", "max_by(people, &age).name", "people[?age > `1`].tags[]", "sort(nums) | reverse(@)", "merge(o1, o2).k", "to_array(nums)[0]", "map(&tags, people)[]",
-	"sort_by(`[\"b\",\"a\",\"c\"]`, &@) | join('', @)", "nums[::9]", "people[::-7].name", "`[1,2]`[::5]", "nums[1::3]", "nested[][::4]", "people[*].tags[::2]", "not_null(`[2,1]`, nums) | sort(@)", "[`[3,2,1]`, nums][] | sort(@)",
+	"sort_by(`[\"b\",\"a\",\"c\"]`, &@) | join('', @)", "`[{\"name\":\"a fairly long literal value that exceeds sixty-four bytes\",\"n\":[3,1,2]},{\"name\":\"b\",\"n\":[]}]` | sort_by(@, &name)[0].n", "merge(`{\"k1\":\"vvvvvvvvvvvvvvvvvvvvvvvvvvvvvvvvvvvvvvvvvvvvvvvvvvvvvvvvvvvvvvvvvvvvvvvv\"}`, o1).k", "[`\"0123456789012345678901234567890123456789012345678901234567890123456789\"`, nums[0]]", "nums[::9]", "people[::-7].name", "`[1,2]`[::5]", "nums[1::3]", "nested[][::4]", "people[*].tags[::2]", "not_null(`[2,1]`, nums) | sort(@)", "[`[3,2,1]`, nums][] | sort(@)",
 }
 
 func TestC12(t *testing.T) {
